@@ -156,3 +156,11 @@ PARTS = [Filt, convmeta.KeySetPart]
 TRUSTED_BASE = TRUSTED_BASE + ['conversion level: hand models coq/Stack/Model.v, coq/Ext/Model.v, coq/Conv/Meta.v tied to DicomStack.to_nifti(embed_meta=True) by the keyset correspondence part']
 ASSUMPTIONS = ASSUMPTIONS + ['conversion level: slice normals of the per-file extensions pairwise np.allclose (open finding N9 of C01), key-only filters, extracted dictionaries are inputs',
                              'keys that are None in every file may be present or absent; the key-set equation is stated modulo them']
+
+
+# source tie (integrator): make_key_regex_filter and its inner function are TRANSLATED from the Python AST on every run
+# (tools/tables/t_src_filter.py -> Generated/T_src_filter.v) and Filter.Model.key_regex_filter is proved equal to the translation
+COQ_PROPS = (list(COQ_PROPS) if isinstance(COQ_PROPS, (list, tuple)) else [COQ_PROPS]) + ['Props/SRCfilter.v']
+THEOREMS = list(THEOREMS) + ['SRC_key_regex_filter', 'SRC_make_key_regex_filter']
+TABLES = sorted(set(list(globals().get('TABLES') or []) + ['t_src_filter'])) if globals().get('TABLES') else None
+TRUSTED_BASE = list(TRUSTED_BASE) + ['tools/tables/py2coq.py + t_src_filter.py: translator of make_key_regex_filter into Gallina (re.compile / search are parameters)']
